@@ -154,14 +154,19 @@ def isEndOfStream(substrate):
         yield result
 
     else:
-        received = substrate.read(1)
-        if received is None:
-            yield
+        while True:
+            received = substrate.read(1)
 
-        if received:
-            substrate.seek(-1, os.SEEK_CUR)
+            if received is None:
+                # non-blocking stream has nothing right now: cannot tell yet
+                yield error.SubstrateUnderrunError()
+                continue
 
-        yield not received
+            if received:
+                substrate.seek(-1, os.SEEK_CUR)
+
+            yield not received
+            break
 
 
 def peekIntoStream(substrate, size=-1):
